@@ -1,9 +1,11 @@
-"""C17 — persistent parameters: implementation driver (fault-injecting in-memory file system around the real
-frappy.persistent.PersistentMixin), case encoder, direct oracle, generators"""
+"""C17 — persistent parameters: implementation driver (in-memory file system around the real
+frappy.persistent.PersistentMixin that records every file-system call and injects a crash or an OSError at any of
+them), case encoder, direct oracle, generators"""
 import base64
 import io
 import json
 import os
+import pathlib
 import random
 import struct
 
@@ -21,19 +23,25 @@ RULE = ('a case = a generated module class (1-4 parameters over int/bool/enum/st
         'struct datatypes, persistent off/on/auto, with/without write method or writable flag, explicit defaults) + a '
         'history of operations on the real PersistentMixin (create module with a configuration, assign a parameter, '
         'saveParameters, writeInitParams, loadParameters, factory_reset, replace/remove the stored file by a corruption) '
-        'where every operation that can save carries at most one injected fault (crash before / crash after / OSError) '
-        'at one file-system operation (open, i-th write, close, rename, remove) of an in-memory file system patched into '
-        'frappy.persistent; after a crash the module is re-created from the surviving directory.  Exhaustive part: for '
-        'fixed modules every fault kind at every operation index of a save; corruptions: truncation at every byte, single '
-        'bit flips, per-entry type changes, unknown keys, non-object documents, outdated shapes.  A case is non-trivial '
-        'when at least one file write-out was attempted or a stored/corrupted file was loaded; distinct = distinct '
-        '(module, history) pairs')
+        'where every operation carries at most one injected fault (crash before / crash after / OSError) at one '
+        'file-system call: EVERY call made through the names frappy.persistent uses (open, os.*, pathlib objects below '
+        'generalConfig.logdir, the file objects) is recorded, is a crash point and a fault point; a fault is addressed '
+        'by the index of the call in the operation (whatever the call is) or by the name of the call; the recorded call '
+        'sequence is compared with the one of the model; after a crash the module is re-created from the surviving '
+        'directory.  Exhaustive part: for fixed modules every fault kind at every call index of a save (live module and '
+        'start-up, 4 indices beyond the calls made today); corruptions: truncation at every byte, single bit flips, '
+        'per-entry type changes, unknown keys, non-object documents, outdated shapes.  A case is non-trivial when at '
+        'least one file write-out was attempted or a stored/corrupted file was loaded; distinct = distinct (module, '
+        'history) pairs')
 ASSUMPTIONS = [
     'os.rename within one directory is atomic with respect to crashes; a crash leaves every other file untouched; '
     'the in-memory file system is write-through (every f.write reaches the disk immediately), which exposes more '
     'intermediate states than a buffered file does',
-    'one injected fault per save; reads are not fault-injected (PermissionError/IsADirectoryError on open for reading '
-    'propagate out of start-up - observed, outside the quantifier of the property)',
+    'one injected fault per operation; crash points lie before and after every file-system call made through open / os / '
+    'pathlib / file objects as named in frappy/persistent.py (a call through another module, e.g. shutil or tempfile, '
+    'bypasses the recorder: files it creates are noticed and the case is refused); an OSError injected at the reading '
+    'open or at os.makedirs propagates out of start-up / loadParameters (observed, outside the quantifier of the property)',
+    'the persistent directory exists once a module has been created (os.makedirs in __init__); nobody removes it',
     'the module clock advances by 1 s per time.time() call so that announceUpdate never omits an unchanged update '
     '(omit_unchanged_within = 0.1 s); values assigned and configured are valid canonical members of their datatype',
     'model = repaired code (fix: b610a07, 6518f2a, 66c61e0 and the datatype repairs): stored entries pass '
@@ -213,14 +221,38 @@ def spec_valid(dt, cv):
 
 
 # ------------------------------------------------------------------ in-memory file system with fault injection
+# EVERY file-system call made through the names frappy/persistent.py uses (the builtin `open`, the module `os`, the
+# pathlib objects derived from generalConfig.logdir, the file objects handed out) goes through FakeFS.call: it is
+# appended to the call log of the operation, it is a crash point (before / after) and a fault point (OSError).  Nothing
+# is specific to the calls the code makes today: a new call (os.remove of the target, Path.exists, os.fsync ...) is
+# recorded, faulted and compared with the model like the others.
+class Unmodelled(Exception):
+    """a file-system call the in-memory file system cannot perform (it is in the call log: the model does not
+    know it, the comparison fails closed)"""
+
+
+FAKE_FD = 1 << 20
+
+
+def base_name(call):
+    b = call.split(':', 1)[0]
+    return 'open' if b == 'open_w' else b
+
+
 class FakeFS:
-    def __init__(self):
+    def __init__(self, root):
+        self.root = root
+        self.pdir = os.path.join(root, 'persistent')
+        self.target = os.path.join(self.pdir, f'{EQ}.{MODNAME}.json')
+        self.tmp = self.target + '.tmp'
         self.files = {}       # path -> {'chunks': [str], 'data': json obj or None, 'n': int, 'closed': bool} | {'raw': bytes}
+        self.dirs = {root}
         self.fault = None
         self.fired = None
         self.dead = False
         self.dumps = []       # data objects passed to json.dump in the current op
         self.oplog = []
+        self.handles = {}     # fake fd -> Writer
 
     def arm(self, fault):
         self.fault = fault
@@ -228,15 +260,54 @@ class FakeFS:
         self.dumps = []
         self.oplog = []
 
-    def op(self, name, effect, idx=None):
+    # -- paths
+    def norm(self, path):
+        return os.path.normpath(os.path.join(self.root, os.fspath(path)))
+
+    def is_fake(self, x):
+        if isinstance(x, FakePath):
+            return True
+        if isinstance(x, int) and not isinstance(x, bool):
+            return x >= FAKE_FD
+        try:
+            p = os.fspath(x)
+        except TypeError:
+            return False
+        if isinstance(p, bytes):
+            p = p.decode('utf-8', 'replace')
+        p = os.path.normpath(p)
+        return p == self.root or p.startswith(self.root + os.sep)
+
+    def role(self, path):
+        if isinstance(path, int):
+            w = self.handles.get(path)
+            return 'fd' if w is None else self.role(w.path)
+        p = self.norm(path)
+        if p == self.target:
+            return 'target'
+        if p == self.tmp:
+            return 'tmp'
+        if p == self.pdir:
+            return 'dir'
+        return os.path.relpath(p, self.root)
+
+    # -- one file-system call
+    def call(self, func, roles, effect, idx=None):
         if self.dead:
             raise Crash()
+        name = func + (':' + roles if roles else '') + ('' if idx is None else f':{idx}')
+        index = len(self.oplog)
         kind = None
         f = self.fault
-        if f and self.fired is None and f['op'] == name and (name != 'write' or f['i'] == idx):
-            self.fired = dict(f)
-            kind = f['kind']
-        self.oplog.append(name if idx is None else f'{name}{idx}')
+        if f and self.fired is None:
+            if 'at' in f:
+                hit = f['at'] == index
+            else:
+                hit = f['op'] in (func, base_name(name)) and (func != 'write' or f.get('i') == idx)
+            if hit:
+                self.fired = dict(f, index=index, call=name)
+                kind = f['kind']
+        self.oplog.append(name)
         if kind == 'cb':
             self.dead = True
             raise Crash()
@@ -251,57 +322,196 @@ class FakeFS:
             raise Crash()
         return effect()
 
-    # -- the functions patched into frappy.persistent
-    def open(self, path, mode='r', encoding=None, **kw):
-        path = str(path)
-        if 'w' in mode:
-            def effect():
-                f = {'chunks': [], 'data': None, 'n': 0, 'closed': False}
-                self.files[path] = f
-                return Writer(self, f)
-            return self.op('open', effect)
-        if self.dead:
-            raise Crash()
-        f = self.files.get(path)
-        if f is None:
-            raise FileNotFoundError(2, 'No such file or directory', path)
-        raw = f['raw'] if 'raw' in f else ''.join(f['chunks']).encode('utf-8')
-        return io.TextIOWrapper(io.BytesIO(raw), encoding=encoding or 'utf-8')
-
-    def rename(self, a, b):
-        a, b = str(a), str(b)
+    def unmodelled(self, func, *paths):
+        roles = '>'.join(self.role(p) for p in paths if self.is_fake(p))
 
         def effect():
+            raise Unmodelled(f'{func}({roles})')
+        return self.call(func, roles, effect)
+
+    def _need_parent(self, p):
+        if os.path.dirname(p) not in self.dirs:
+            raise FileNotFoundError(2, 'No such file or directory', p)
+
+    # -- the calls
+    def open(self, path, mode='r', buffering=-1, encoding=None, errors=None, newline=None, **kw):
+        if isinstance(path, int):
+            return self.unmodelled('open_fd', path)
+        p = self.norm(path)
+        if any(c in mode for c in 'wxa+'):
+            def effect():
+                self._need_parent(p)
+                if p in self.dirs:
+                    raise IsADirectoryError(21, 'Is a directory', p)
+                if 'x' in mode and p in self.files:
+                    raise FileExistsError(17, 'File exists', p)
+                old = self.files.get(p)
+                if ('a' in mode or ('+' in mode and 'r' in mode)) and old is not None:
+                    if 'raw' in old:
+                        old = {'chunks': [old['raw'].decode('utf-8', 'surrogateescape')], 'data': None, 'n': 0}
+                    f = {'chunks': list(old['chunks']), 'data': old.get('data'), 'n': old.get('n', 0), 'closed': False}
+                elif '+' in mode and 'r' in mode:
+                    raise FileNotFoundError(2, 'No such file or directory', p)
+                else:
+                    f = {'chunks': [], 'data': None, 'n': 0, 'closed': False}
+                self.files[p] = f
+                return Writer(self, f, p)
+            return self.call('open_w', self.role(p), effect)
+
+        def reffect():
+            if p in self.dirs:
+                raise IsADirectoryError(21, 'Is a directory', p)
+            f = self.files.get(p)
+            if f is None:
+                raise FileNotFoundError(2, 'No such file or directory', p)
+            raw = file_bytes(f)
+            if 'b' in mode:
+                return io.BytesIO(raw)
+            return io.TextIOWrapper(io.BytesIO(raw), encoding=encoding or 'utf-8', errors=errors, newline=newline)
+        return self.call('open_r', self.role(p), reffect)
+
+    def rename(self, a, b, func='rename'):
+        a, b = self.norm(a), self.norm(b)
+
+        def effect():
+            if a in self.dirs:
+                raise Unmodelled('rename of a directory')
             if a not in self.files:
                 raise FileNotFoundError(2, 'No such file or directory', a)
+            self._need_parent(b)
+            if b in self.dirs:
+                raise IsADirectoryError(21, 'Is a directory', b)
             self.files[b] = self.files.pop(a)
-        return self.op('rename', effect)
+        return self.call(func, f'{self.role(a)}>{self.role(b)}', effect)
 
-    def remove(self, a):
-        a = str(a)
+    def remove(self, a, missing_ok=False):
+        a = self.norm(a)
 
         def effect():
+            if a in self.dirs:
+                raise IsADirectoryError(21, 'Is a directory', a)
             if a not in self.files:
+                if missing_ok:
+                    return
                 raise FileNotFoundError(2, 'No such file or directory', a)
             del self.files[a]
-        return self.op('remove', effect)
+        return self.call('remove', self.role(a), effect)
+
+    def makedirs(self, path, mode=0o777, exist_ok=False):
+        p = self.norm(path)
+
+        def effect():
+            if p in self.files:
+                raise FileExistsError(17, 'File exists', p)
+            if p in self.dirs:
+                if exist_ok:
+                    return
+                raise FileExistsError(17, 'File exists', p)
+            q = p
+            while q not in self.dirs and q.startswith(self.root):
+                self.dirs.add(q)
+                q = os.path.dirname(q)
+        return self.call('makedirs', self.role(p), effect)
+
+    def mkdir(self, path, mode=0o777, parents=False, exist_ok=False):
+        p = self.norm(path)
+
+        def effect():
+            if p in self.dirs or p in self.files:
+                if exist_ok and p in self.dirs:
+                    return
+                raise FileExistsError(17, 'File exists', p)
+            if os.path.dirname(p) not in self.dirs and not parents:
+                raise FileNotFoundError(2, 'No such file or directory', p)
+            q = p
+            while q not in self.dirs and q.startswith(self.root):
+                self.dirs.add(q)
+                q = os.path.dirname(q)
+        return self.call('mkdir', self.role(p), effect)
+
+    def rmdir(self, path):
+        p = self.norm(path)
+
+        def effect():
+            if p not in self.dirs:
+                raise FileNotFoundError(2, 'No such file or directory', p)
+            if any(os.path.dirname(q) == p for q in list(self.files) + list(self.dirs)):
+                raise OSError(39, 'Directory not empty', p)
+            self.dirs.discard(p)
+        return self.call('rmdir', self.role(p), effect)
+
+    def query(self, func, path):
+        p = self.norm(path)
+
+        def effect():
+            if func == 'exists':
+                return p in self.files or p in self.dirs
+            if func == 'is_dir':
+                return p in self.dirs
+            if func == 'is_file':
+                return p in self.files
+            if func == 'listdir':
+                if p not in self.dirs:
+                    raise FileNotFoundError(2, 'No such file or directory', p)
+                return sorted(os.path.basename(q) for q in list(self.files) + list(self.dirs)
+                              if os.path.dirname(q) == p)
+            if func == 'getsize':
+                if p not in self.files:
+                    raise FileNotFoundError(2, 'No such file or directory', p)
+                return len(file_bytes(self.files[p]))
+            raise Unmodelled(func)
+        return self.call(func, self.role(p), effect)
+
+    def touch(self, path, exist_ok=True):
+        p = self.norm(path)
+
+        def effect():
+            self._need_parent(p)
+            if p in self.files:
+                if not exist_ok:
+                    raise FileExistsError(17, 'File exists', p)
+                return
+            self.files[p] = {'chunks': [], 'data': None, 'n': 0, 'closed': True}
+        return self.call('touch', self.role(p), effect)
 
 
 class Writer:
-    def __init__(self, fs, f):
-        self.fs, self.f, self.count = fs, f, 0
+    """file object of a file opened for writing: write, flush and close are file-system calls"""
+    def __init__(self, fs, f, path):
+        self.fs, self.f, self.path, self.count = fs, f, path, 0
+        self.fd = FAKE_FD + len(fs.handles)
+        fs.handles[self.fd] = self
+        self.name = path
+        self.mode = 'w'
+        self.encoding = 'utf-8'
+
+    @property
+    def closed(self):
+        return self.f['closed']
 
     def write(self, s):
+        if self.f['closed']:
+            raise ValueError('I/O operation on closed file.')
         i = self.count
+        text = s if isinstance(s, str) else bytes(s).decode('utf-8', 'surrogateescape')
 
         def effect():
-            self.f['chunks'].append(s)
-        self.fs.op('write', effect, i)
+            self.f['chunks'].append(text)
+        self.fs.call('write', self.fs.role(self.path), effect, i)
         self.count += 1
         return len(s)
 
+    def writelines(self, lines):
+        for ln in lines:
+            self.write(ln)
+
     def flush(self):
-        pass
+        if self.f['closed']:
+            raise ValueError('I/O operation on closed file.')
+        self.fs.call('flush', self.fs.role(self.path), lambda: None)
+
+    def fileno(self):
+        return self.fd
 
     def close(self):
         if self.f['closed']:
@@ -309,7 +519,13 @@ class Writer:
 
         def effect():
             self.f['closed'] = True
-        self.fs.op('close', effect)
+        self.fs.call('close', self.fs.role(self.path), effect)
+
+    def writable(self):
+        return True
+
+    def readable(self):
+        return False
 
     def __enter__(self):
         return self
@@ -318,31 +534,173 @@ class Writer:
         self.close()
         return False
 
+    def __getattr__(self, name):
+        if name.startswith('__'):
+            raise AttributeError(name)
+        return lambda *a, **k: self.fs.unmodelled('file.' + name, self.path)
+
+
+_PATH_UNMODELLED = ('stat', 'lstat', 'is_mount', 'is_symlink', 'is_junction', 'is_block_device', 'is_char_device',
+                    'is_fifo', 'is_socket', 'samefile', 'iterdir', 'glob', 'rglob', 'walk', 'owner', 'group', 'readlink',
+                    'chmod', 'lchmod', 'symlink_to', 'hardlink_to', 'link_to')
+
+
+class FakePath(pathlib.PosixPath):
+    """generalConfig.logdir of a case: every path frappy.persistent derives from it (/, .parent, with_name ...) is a
+    FakePath again, whose file-system methods go to the in-memory file system"""
+    _fs = None
+
+    def exists(self, *, follow_symlinks=True):
+        return self._fs.query('exists', self)
+
+    def is_dir(self):
+        return self._fs.query('is_dir', self)
+
+    def is_file(self):
+        return self._fs.query('is_file', self)
+
+    def mkdir(self, mode=0o777, parents=False, exist_ok=False):
+        return self._fs.mkdir(self, mode, parents, exist_ok)
+
+    def rmdir(self):
+        return self._fs.rmdir(self)
+
+    def unlink(self, missing_ok=False):
+        return self._fs.remove(self, missing_ok)
+
+    def rename(self, target):
+        self._fs.rename(self, target)
+        return self.with_segments(target)
+
+    def replace(self, target):
+        self._fs.rename(self, target)
+        return self.with_segments(target)
+
+    def open(self, mode='r', buffering=-1, encoding=None, errors=None, newline=None):
+        return self._fs.open(self, mode, buffering, encoding, errors, newline)
+
+    def touch(self, mode=0o666, exist_ok=True):
+        return self._fs.touch(self, exist_ok)
+
+    def absolute(self):
+        return self
+
+    def resolve(self, strict=False):
+        return self
+
+    def expanduser(self):
+        return self
+
+
+def _mk_unmodelled(name):
+    def method(self, *a, **k):
+        return self._fs.unmodelled('path.' + name, self, *[x for x in a if self._fs.is_fake(x)])
+    method.__name__ = name
+    return method
+
+
+for _n in _PATH_UNMODELLED:
+    if hasattr(pathlib.Path, _n):
+        setattr(FakePath, _n, _mk_unmodelled(_n))
+
 
 def chunks_of(data):
     return list(json.JSONEncoder(indent=2).iterencode(data)) + ['\n']
 
 
-class FakeOs:
+_OS_PURE = {'fspath', 'fsencode', 'fsdecode', 'getpid', 'getppid', 'getcwd', 'getenv', 'strerror', 'urandom',
+            'cpu_count', 'getuid', 'geteuid', 'getgid', 'getlogin', 'uname', 'times', 'get_terminal_size', 'PathLike'}
+
+
+class FakeOsPath:
     def __init__(self, fs):
         self._fs = fs
 
-    def makedirs(self, *a, **k):
-        return None
+    def _q(self, func, real, path):
+        if self._fs.is_fake(path):
+            return self._fs.query(func, path)
+        return real(path)
 
-    def rename(self, a, b):
-        return self._fs.rename(a, b)
+    def exists(self, path):
+        return self._q('exists', os.path.exists, path)
 
-    def remove(self, a):
-        return self._fs.remove(a)
+    lexists = exists
 
-    unlink = remove
+    def isdir(self, path):
+        return self._q('is_dir', os.path.isdir, path)
 
-    def replace(self, a, b):
-        return self._fs.rename(a, b)
+    def isfile(self, path):
+        return self._q('is_file', os.path.isfile, path)
+
+    def getsize(self, path):
+        return self._q('getsize', os.path.getsize, path)
 
     def __getattr__(self, name):
-        return getattr(os, name)
+        attr = getattr(os.path, name)
+        if not callable(attr) or name in ('join', 'dirname', 'basename', 'split', 'splitext', 'normpath', 'isabs',
+                                          'abspath', 'relpath', 'commonpath', 'commonprefix', 'expanduser',
+                                          'expandvars', 'normcase', 'splitdrive', 'realpath'):
+            return attr
+
+        def wrapper(*a, **k):
+            fake = [x for x in a if self._fs.is_fake(x)]
+            if fake:
+                return self._fs.unmodelled('os.path.' + name, *fake)
+            return attr(*a, **k)
+        return wrapper
+
+
+class FakeOs:
+    """stands for the module `os` inside frappy.persistent: calls on paths below the log directory of the case go to
+    the in-memory file system (known ones are performed, unknown ones are recorded and fail), the rest is the real os"""
+    def __init__(self, fs):
+        self._fs = fs
+        self.path = FakeOsPath(fs)
+
+    def makedirs(self, name, mode=0o777, exist_ok=False):
+        return self._fs.makedirs(name, mode, exist_ok)
+
+    def mkdir(self, path, mode=0o777, **kw):
+        return self._fs.mkdir(path, mode)
+
+    def rmdir(self, path, **kw):
+        return self._fs.rmdir(path)
+
+    def rename(self, a, b, **kw):
+        return self._fs.rename(a, b)
+
+    def replace(self, a, b, **kw):
+        return self._fs.rename(a, b)
+
+    def remove(self, a, **kw):
+        return self._fs.remove(a)
+
+    def unlink(self, a, **kw):
+        return self._fs.remove(a)
+
+    def listdir(self, path='.'):
+        if self._fs.is_fake(path):
+            return self._fs.query('listdir', path)
+        return os.listdir(path)
+
+    def fsync(self, fd):
+        if self._fs.is_fake(fd):
+            return self._fs.call('fsync', self._fs.role(fd), lambda: None)      # the file system is write-through
+        return os.fsync(fd)
+
+    fdatasync = fsync
+
+    def __getattr__(self, name):
+        attr = getattr(os, name)
+        if not callable(attr) or name in _OS_PURE or isinstance(attr, type):
+            return attr
+
+        def wrapper(*a, **k):
+            fake = [x for x in list(a) + list(k.values()) if self._fs.is_fake(x)]
+            if fake:
+                return self._fs.unmodelled('os.' + name, *fake)
+            return attr(*a, **k)
+        return wrapper
 
 
 class FakeJson:
@@ -445,7 +803,7 @@ def parse_foreign(raw):
 def file_bytes(f):
     if f is None:
         return None
-    return f['raw'] if 'raw' in f else ''.join(f['chunks']).encode('utf-8')
+    return f['raw'] if 'raw' in f else ''.join(f['chunks']).encode('utf-8', 'surrogateescape')
 
 
 def to_json(cv):
@@ -501,13 +859,14 @@ def run_case(case):
     from frappy.lib import generalConfig
     from pathlib import Path
 
-    os.makedirs(os.path.join(WORKDIR, 'persistent'), exist_ok=True)
-    fs = FakeFS()
+    os.makedirs(os.path.join(WORKDIR, 'persistent'), exist_ok=True)    # (real, stays empty: stray writes are noticed)
+    fs = FakeFS(WORKDIR)
     params = case['params']
     names = [f'p{i}' for i in range(len(params))]
-    target = os.path.join(WORKDIR, 'persistent', f'{EQ}.{MODNAME}.json')
-    tmp = target + '.tmp'
+    target, tmp = fs.target, fs.tmp
     saved = {}
+    prev_fs = FakePath._fs
+    FakePath._fs = fs
     sentinel = object()
     for modobj, attr, new in ((P, 'open', fs.open), (P, 'os', FakeOs(fs)), (P, 'json', FakeJson(fs)),
                               (MB, 'time', FakeTime())):
@@ -518,7 +877,7 @@ def run_case(case):
             prev_logdir = generalConfig.logdir
         except Exception:
             prev_logdir = sentinel
-        generalConfig.logdir = Path(WORKDIR)
+        generalConfig.logdir = FakePath(WORKDIR)
         cls = mk_class(params)
         m = None
         steps = []
@@ -535,6 +894,7 @@ def run_case(case):
                     if raw is None:
                         fs.files.pop(target, None)
                     else:
+                        fs.dirs.update((fs.root, fs.pdir))
                         fs.files[target] = {'raw': raw}
                 elif kind == 'init':
                     m = None
@@ -564,6 +924,7 @@ def run_case(case):
                 if kind == 'init':
                     m = None
             st = {'exc': exc, 'crashed': crashed, 'fired': fs.fired is not None,
+                  'fired_at': None if fs.fired is None else [fs.fired['index'], fs.fired['call']],
                   'oplog': list(fs.oplog),
                   'n': fs.dumps[0][1] if fs.dumps else 0, 'ndumps': len(fs.dumps),
                   'target': canon_file(fs.files.get(target)), 'tmp': canon_file(fs.files.get(tmp)),
@@ -589,6 +950,7 @@ def run_case(case):
                     pass
         return {'steps': steps, 'stray': stray}
     finally:
+        FakePath._fs = prev_fs
         for (modobj, attr), old in saved.items():
             if old is sentinel:
                 try:
@@ -806,14 +1168,54 @@ def enc_amap(d, K):
     return _intern(t) if _intern else t
 
 
-FOPS = {'open': 'FOpen', 'close': 'FClose', 'rename': 'FRename', 'remove': 'FRemove'}
+FOPS = {'open': 'FOpen', 'close': 'FClose', 'rename': 'FRename', 'remove': 'FRemove',
+        'makedirs': 'FMakedirs', 'open_r': 'FOpenR', 'is_dir': 'FIsDir'}
 KINDS = {'cb': 'KCrashBefore', 'ca': 'KCrashAfter', 'err': 'KErr'}
+# a recorded call -> the operation of the model it is (the role of every path is part of the name: only the rename
+# of the temporary file onto the stored file is FRename, only the removal of the temporary file is FRemove ...)
+MODEL_CALLS = {'makedirs:dir': 'FMakedirs', 'open_r:target': 'FOpenR', 'is_dir:dir': 'FIsDir', 'open_w:tmp': 'FOpen',
+               'close:tmp': 'FClose', 'rename:tmp>target': 'FRename', 'remove:tmp': 'FRemove',
+               'remove:target': 'FRemoveTarget'}
 
 
-def enc_fault(f):
+def model_call(call):
+    if call.startswith('write:tmp:'):
+        return f'(FWrite {gal.nat(int(call.rsplit(":", 1)[1]))})'
+    return MODEL_CALLS.get(call, 'FOther')
+
+
+def enc_log(oplog):
+    """recorded calls of one operation -> list lop (runs of consecutive writes compressed)"""
+    out = []
+    i = 0
+    while i < len(oplog):
+        c = oplog[i]
+        if c.startswith('write:tmp:'):
+            a = int(c.rsplit(':', 1)[1])
+            m = 1
+            while i + m < len(oplog) and oplog[i + m] == f'write:tmp:{a + m}':
+                m += 1
+            out.append(f'LW {gal.nat(a)} {gal.nat(m)}')
+            i += m
+        else:
+            out.append(f'L {model_call(c)}')
+            i += 1
+    return '[%s]' % '; '.join(out)
+
+
+def enc_fault(f, st=None):
+    """the fault as the model takes it: (operation, kind).  A fault given by call index ('at') is named after the call
+    the implementation made at that index; a fault that did not strike there (no such call) is no fault"""
     if f is None:
         return 'None'
-    o = f'(FWrite {gal.nat(f["i"])})' if f['op'] == 'write' else FOPS[f['op']]
+    if st is not None and st['fired']:
+        idx, call = st['fired_at']
+        if st['oplog'].index(call) != idx:
+            raise ValueError(f'fault at a repeated call ({call} at {idx}): not expressible in the model')
+        return f'(Some ({model_call(call)}, {KINDS[f["kind"]]}))'
+    if 'at' in f:
+        return 'None'
+    o = f'(FWrite {gal.nat(f["i"])})' if f['op'] == 'write' else FOPS.get(f['op'], 'FOther')
     return f'(Some ({o}, {KINDS[f["kind"]]}))'
 
 
@@ -854,6 +1256,8 @@ def encode(case, obs):
 
 
 def _encode(case, obs):
+    if obs.get('stray'):
+        raise ValueError(f'files written past the patched names (real file system): {obs["stray"]}')
     I = _intern
     T = Tables(case, obs)
     params = case['params']
@@ -870,12 +1274,12 @@ def _encode(case, obs):
         if kind == 'corrupt':
             ops.append(f'(OCorrupt {enc_content(st["target"], K)})')
         elif kind == 'init':
-            ops.append(f'(OInit {enc_amap(op[1], K)} {enc_fault(op[2])} {n})')
+            ops.append(f'(OInit {enc_amap(op[1], K)} {enc_fault(op[2], st)} {n})')
         elif kind == 'set':
-            ops.append(f'(OSet {gal.nat(K(op[1]))} {enc_val(op[2])} {enc_fault(op[3])} {n})')
+            ops.append(f'(OSet {gal.nat(K(op[1]))} {enc_val(op[2])} {enc_fault(op[3], st)} {n})')
         else:
             ops.append('(%s %s %s)' % ({'save': 'OSave', 'writeinit': 'OWriteInit', 'load': 'OLoad',
-                                        'reset': 'OReset'}[kind], enc_fault(op[1]), n))
+                                        'reset': 'OReset'}[kind], enc_fault(op[1], st), n))
         if st['other']:
             raise ValueError(f'unexpected files: {st["other"]}')
         if st['ndumps'] > 1:
@@ -887,8 +1291,8 @@ def _encode(case, obs):
             ms = '(Some {| vals := %s; wdict := %s; pdata := %s; initd := %s |})' % (
                 enc_amap(m['vals'], K), enc_amap(m['wd'], K),
                 'None' if m['pd'] == 'nondict' else f'(Some {enc_amap(m["pd"], K)})', enc_amap(m['init'], K))
-        obl.append('{| o_res := %s; o_target := %s; o_tmp := %s; o_mod := %s |}' % (
-            enc_res(st), I(enc_content(st['target'], K)), I(enc_content(st['tmp'], K)), I(ms)))
+        obl.append('{| o_res := %s; o_target := %s; o_tmp := %s; o_mod := %s; o_log := %s |}' % (
+            enc_res(st), I(enc_content(st['target'], K)), I(enc_content(st['tmp'], K)), I(ms), I(enc_log(st['oplog']))))
     return '{| c_M := [%s]; c_ops := [%s]; c_obs := [%s] |}' % ('; '.join(M), ';\n '.join(ops), ';\n '.join(obl))
 
 
@@ -930,9 +1334,11 @@ def oracle(case, obs):
     params = case['params']
     names = [f'p{i}' for i in range(len(params))]
     pers = _pers_names(case)
-    if obs.get('stray'):
-        fail('atomic', f'files written outside the persistent file protocol: {obs["stray"]}')
+    # (files the code creates next to the stored file - a backup copy, a lock file - and writes that bypass the patched
+    #  names are not violations of the property: the case is then outside the model, encode() refuses it, which breaks
+    #  the correspondence obligation and starts the search for a real failure)
     cur = None             # bytes of the stored file before the operation (None: no file)
+    foreign = False        # somebody else replaced the stored file and the module has not read or rewritten it since
     cur_saved_vals = None  # values of the live module when the stored file was last completely written by it
     failed_save = None     # index of a save that failed with an I/O error and was not followed by a complete write
     for idx, (op, st) in enumerate(zip(case['ops'], obs['steps'])):
@@ -942,10 +1348,10 @@ def oracle(case, obs):
         cur = after
         if kind == 'corrupt':
             cur_saved_vals = None
+            foreign = True
             continue
         fault = op[-1] if st['fired'] else None
-        if st['other']:
-            fail('atomic', f'op {idx}: unexpected files {st["other"]}')
+        prev_mod = obs['steps'][idx - 1]['mod'] if idx else None
         # (1) crash / error atomicity: the stored file is the previous one or a complete new snapshot
         if after != before:
             doc = None if after is None else _doc_of(after)
@@ -960,7 +1366,18 @@ def oracle(case, obs):
                 if exp is not None and doc != exp:
                     fail('roundtrip', f'op {idx} ({kind}): stored snapshot {doc} is not the transport form {exp} of the '
                                       'current values')
+            elif st['mod'] is None and st['crashed'] and kind in ('set', 'save') and prev_mod is not None:
+                # the process died in this operation: the NEW snapshot is that of the values it was saving
+                vals = dict(prev_mod['vals'])
+                if kind == 'set':
+                    vals[op[1]] = op[2]
+                exp = _expected_snapshot(case, vals)
+                if exp is not None and doc != exp:
+                    fail('atomic', f'op {idx} ({kind}, fault {fault}): the stored file after the crash {doc} is neither '
+                                   f'the previous snapshot nor the new one {exp}')
         wrote = after != before
+        if wrote or (kind in ('init', 'load') and st['mod'] is not None and st['exc'] is None and not st['crashed']):
+            foreign = False        # complete new snapshot written / stored file read by the module
         if wrote and st['mod'] is not None:
             # (after writeinit/load/reset values may still change after the save of the same operation)
             cur_saved_vals = dict(st['mod']['vals']) if kind in ('init', 'set', 'save') else None
@@ -969,7 +1386,6 @@ def oracle(case, obs):
             cur_saved_vals = None
             failed_save = None
         # (2) a save without fault puts the current values on disk (a failed one is retried by the next save)
-        prev_mod = obs['steps'][idx - 1]['mod'] if idx else None
         attempt = False
         if st['mod'] is not None and not st['fired'] and st['exc'] is None:
             if kind == 'init':
@@ -978,7 +1394,9 @@ def oracle(case, obs):
                 attempt = True
             elif kind == 'set' and params[int(op[1][1:])]['pers'] == 'auto' and prev_mod is not None and not prev_mod['wd']:
                 attempt = True
-        if attempt:
+        if attempt and not foreign:
+            # (a module under which somebody else replaced the file, and which could not read it since, still
+            #  believes its last snapshot to be on disk: not a failed or lost save)
             exp = _expected_snapshot(case, st['mod']['vals'])
             doc = None if after is None else _doc_of(after)
             if exp is not None and doc != exp:
@@ -988,7 +1406,8 @@ def oracle(case, obs):
                          f'write either: disk has {doc}, values are {exp}', failed_at=failed_save)
                 else:
                     fail('save-lost', f'op {idx} ({kind}): after a successful save the disk has {doc}, values are {exp}')
-        if st['fired'] and fault and fault['kind'] == 'err' and st['mod'] is not None and not wrote:
+        if st['fired'] and fault and fault['kind'] == 'err' and st['mod'] is not None and not wrote and \
+                not st['fired_at'][1].startswith(('open_r', 'makedirs')):
             failed_save = idx
         if st['fired'] and fault and fault['kind'] == 'err' and st['mod'] is not None and wrote:
             # e.g. error at remove after the rename: data is on disk
@@ -1100,7 +1519,10 @@ def outcome_labels(case, obs):
         labs.add('op:' + op[0])
         if st['fired']:
             f = op[-1]
-            labs.add(f'fault:{f["op"]}:{f["kind"]}')
+            labs.add(f'fault:{base_name(st["fired_at"][1])}:{f["kind"]}')
+            labs.add('fault-by-' + ('index' if 'at' in f else 'name'))
+        for c in st['oplog']:
+            labs.add('call:' + (c if not c.startswith('write:') else c.rsplit(':', 1)[0]))
         if st['crashed']:
             labs.add('crashed')
         if st['exc']:
@@ -1280,10 +1702,15 @@ NONOBJ = ['[1]', '5', '"abc"', 'null', 'true', '[]', '1.5', '[{"p0": 1}]']
 GARBAGE = ['', '{', '{"p0": ', '{"p0": 1,}', '\x00\x01', 'p0=1', '{"p0": 1}}', '{"p0": 1} x', "{'p0': 1}"]
 
 
-def gen_fault(rng, p=0.35, nmax=45):
+def gen_fault(rng, p=0.35, nmax=45, by_index=False):
+    """by name: at the first call of that name; by index (only for operations with at most one save and no other
+    call of the same kind: init, set, save): at the k-th file-system call of the operation, whatever it is"""
     if rng.random() >= p:
         return None
-    op = rng.choice(['open', 'write', 'write', 'write', 'close', 'rename', 'remove'])
+    if by_index and rng.random() < 0.4:
+        return {'at': rng.randrange(nmax + 8) if rng.random() < 0.5 else rng.randrange(9),
+                'kind': rng.choice(['cb', 'ca', 'err', 'err'])}
+    op = rng.choice(['open', 'write', 'write', 'write', 'close', 'rename', 'remove', 'is_dir', 'open_r', 'makedirs'])
     f = {'op': op, 'kind': rng.choice(['cb', 'ca', 'err', 'err'])}
     if op == 'write':
         f['i'] = rng.randrange(nmax) if rng.random() < 0.8 else rng.randrange(8)
@@ -1316,7 +1743,7 @@ def rand_case(rng, pool):
     ops = []
     if rng.random() < 0.3:
         ops.append(['corrupt', gen_corrupt(params, rng) if rng.random() < 0.5 else {'doc': gen_doc(params, rng, 'good')}])
-    ops.append(['init', gen_cfg(params, rng), gen_fault(rng, 0.15)])
+    ops.append(['init', gen_cfg(params, rng), gen_fault(rng, 0.15, by_index=True)])
     for _ in range(rng.randint(2, 8)):
         r = rng.random()
         last = ops[-1]
@@ -1324,13 +1751,13 @@ def rand_case(rng, pool):
             (last[0] == 'init' and last[-1] is not None)
         if risky:
             # the process may be dead: start again from the directory
-            ops.append(['init', gen_cfg(params, rng), gen_fault(rng, 0.1)])
+            ops.append(['init', gen_cfg(params, rng), gen_fault(rng, 0.1, by_index=True)])
             continue
         if r < 0.42:
             i = rng.randrange(len(params))
-            ops.append(['set', f'p{i}', gen_value(params[i]['dt'], rng), gen_fault(rng)])
+            ops.append(['set', f'p{i}', gen_value(params[i]['dt'], rng), gen_fault(rng, by_index=True)])
         elif r < 0.56:
-            ops.append(['save', gen_fault(rng)])
+            ops.append(['save', gen_fault(rng, by_index=True)])
         elif r < 0.68:
             ops.append(['writeinit', gen_fault(rng)])
         elif r < 0.74:
@@ -1341,9 +1768,9 @@ def rand_case(rng, pool):
             ops.append(['load', gen_fault(rng)])
         elif r < 0.92:
             ops.append(['corrupt', gen_corrupt(params, rng)])
-            ops.append(['init', gen_cfg(params, rng), gen_fault(rng, 0.1)])
+            ops.append(['init', gen_cfg(params, rng), gen_fault(rng, 0.1, by_index=True)])
         else:
-            ops.append(['init', gen_cfg(params, rng), gen_fault(rng, 0.2)])
+            ops.append(['init', gen_cfg(params, rng), gen_fault(rng, 0.2, by_index=True)])
     return {'params': params, 'ops': ops}
 
 
@@ -1370,29 +1797,51 @@ def _chunks_estimate(params):
     return len(chunks_of(doc)), len(json.dumps(doc, indent=2)) + 1
 
 
+def _doc_chunks(params, vals):
+    doc = {}
+    for i, p in enumerate(params):
+        if p['pers'] in ('on', 'auto'):
+            doc[f'p{i}'] = to_json(spec_export(p['dt'], vals.get(f'p{i}', p['default'])))
+    return len(chunks_of(doc))
+
+
+SAVE_CALLS = 5      # is_dir, open, close, rename, remove around the n writes
+INIT_CALLS = 2      # makedirs, open for reading
+MARGIN = 4          # indices beyond the calls made today: calls a change may add are crash / fault points as well
+
+
 def fault_sweep(params, rng):
-    """every fault kind at every file-system operation of a save: in a running module, and during start-up"""
-    n, _ = _chunks_estimate(params)
+    """a crash before, a crash after and an OSError at EVERY file-system call (by index in the recorded call
+    sequence, whatever the call is) of a save: in a running module, and during start-up"""
     auto = [i for i, p in enumerate(params) if p['pers'] == 'auto']
     pers = [i for i, p in enumerate(params) if p['pers'] in ('on', 'auto')]
-    positions = [{'op': 'open'}] + [{'op': 'write', 'i': i} for i in range(n + 1)] + \
-        [{'op': 'close'}, {'op': 'rename'}, {'op': 'remove'}]
-    for pos in positions:
+    i = auto[0] if auto else pers[0]
+    v = gen_value(params[i]['dt'], rng)
+    for _ in range(5):
+        if not cv_eq(v, params[i]['default']):
+            break
+        v = gen_value(params[i]['dt'], rng)
+    n = _doc_chunks(params, {f'p{i}': v})
+    for k in range(n + SAVE_CALLS + MARGIN):
         for kind in ('cb', 'ca', 'err'):
-            f = dict(pos, kind=kind)
+            f = {'at': k, 'kind': kind}
             if auto:
-                i = auto[0]
-                v = gen_value(params[i]['dt'], rng)
                 yield {'params': params, 'ops': [
                     ['init', {}, None], ['writeinit', None], ['set', f'p{i}', v, f], ['save', None],
                     ['init', {}, None], ['save', None]]}
             else:
-                i = pers[0]
-                v = gen_value(params[i]['dt'], rng)
                 yield {'params': params, 'ops': [
                     ['init', {}, None], ['writeinit', None], ['set', f'p{i}', v, None], ['save', f], ['save', None],
                     ['init', {}, None], ['save', None]]}
-            yield {'params': params, 'ops': [['init', gen_cfg(params, rng, 0.5), f], ['init', {}, None], ['save', None]]}
+    cfg = gen_cfg(params, rng, 0.5)
+    n = _doc_chunks(params, cfg)
+    for k in range(INIT_CALLS + n + SAVE_CALLS + MARGIN):
+        for kind in ('cb', 'ca', 'err'):
+            f = {'at': k, 'kind': kind}
+            yield {'params': params, 'ops': [['init', cfg, f], ['init', {}, None], ['save', None]]}
+            if k < INIT_CALLS + 2 or k >= INIT_CALLS + n + 2:
+                # start-up on top of an existing stored file (the first start-up above has none to lose)
+                yield {'params': params, 'ops': [['init', {}, None], ['init', cfg, f], ['init', {}, None]]}
 
 
 def corruption_sweep(params, rng, flips=True):
@@ -1425,7 +1874,7 @@ def corruption_sweep(params, rng, flips=True):
 
 def gen_cases(seed, tier):
     rng = random.Random(seed * 1000003 + 17)
-    npool, nrand = {'quick': (60, 2600), 'thorough': (400, 18000), 'search': (400, 18000)}[tier]
+    npool, nrand = {'quick': (60, 1800), 'thorough': (400, 18000), 'search': (400, 18000)}[tier]
     pool = FIXED + [gen_params(rng) for _ in range(npool)]
     cases = []
     fixed = FIXED if tier != 'quick' else FIXED[:2]
